@@ -26,7 +26,9 @@ RULE = ('Sandbox = root/outside/{canary file, canary dir/file} + root/store/ wit
         '(delete); an operation that raises may have created at most the empty key directory; any data read through a returned '
         'handle must come from a file whose real path is directly inside D; exists/find_keys change nothing. Any exception type is '
         'an acceptable rejection. Non-trivial = the key or filename contains a separator, dot segment, absolute prefix or names a '
-        'symlink. Distinct = hash of (layout, operations).')
+        'symlink. Distinct = hash of (layout, operations). Thorough tier only: the same oracle inside an atheris/libFuzzer target (bytes '
+        '-> layout bits + operations via FuzzedDataProvider, sandbox rebuilt per iteration, empty corpus, 4 x 150 s); its execution '
+        'counts are reported under coverage.extra (they are not part of evaluations/distinct_nontrivial).')
 ASSUMPTIONS = ['"the one the key names": for a key that is a symlink resolving to another direct child of the storage dir, that child is taken as the named directory',
                'mtime-only changes are ignored (creating a key directory legitimately touches the storage directory)']
 
@@ -306,10 +308,52 @@ def case():
 
 def plan(tier: str) -> list[dict]:
     q = tier == 'quick'
-    return [{'engine': 'ops', 'n': 300 if q else 15000, 'hashseed': i % 8} for i in range(16)]
+    jobs = [{'engine': 'ops', 'n': 300 if q else 15000, 'hashseed': i % 8} for i in range(16)]
+    if not q:
+        # secondary engine: coverage-guided fuzzing (atheris/libFuzzer) of the same oracle, empty corpus, four seeds
+        jobs += [{'engine': 'atheris', 'seconds': 150, 'fuzz_seed': 1 + i, 'hashseed': 0, 'timeout': 900} for i in range(4)]
+    return jobs
+
+
+def run_atheris(rec: core.Recorder, job: dict, seed: int) -> None:
+    import glob
+    import json
+    import subprocess
+    import sys
+    d = tempfile.mkdtemp(prefix='c18-fuzz-', dir=os.environ.get('VERIF_SCRATCH'))
+    out, corpus = os.path.join(d, 'out'), os.path.join(d, 'corpus')
+    os.makedirs(out)
+    os.makedirs(corpus)
+    env = dict(os.environ)
+    cmd = [sys.executable, '-m', 'pbt.fuzz_c18', out, f'-max_total_time={job["seconds"]}', f'-seed={core.derive_seed(seed, job["fuzz_seed"]) % (2**31 - 1) + 1}',
+           f'-artifact_prefix={out}/', '-print_final_stats=0', corpus]
+    with open(os.path.join(d, 'log'), 'wb') as log:
+        try:
+            subprocess.run(cmd, env=env, stdout=log, stderr=log, stdin=subprocess.DEVNULL, timeout=job['seconds'] + 300, cwd=d)
+        except subprocess.TimeoutExpired:
+            pass
+    stats = {}
+    try:
+        stats = json.load(open(os.path.join(out, 'stats.json')))
+    except Exception:
+        tail = open(os.path.join(d, 'log'), 'rb').read()[-300:].decode('utf-8', 'replace')
+        rec.notes.append(f'atheris engine skipped or produced no statistics: {tail!r}')
+    for f in glob.glob(os.path.join(out, 'finding-*.json')):
+        rec_ = json.load(open(f))
+        res = check(rec_['case'])            # re-decide outside the fuzzer (and get a proper CaseResult)
+        rec.case('atheris', rec_['case'], res)
+        bad = rec.triage('atheris', rec_['case'], res)
+        if bad:
+            rec.violation('atheris', rec_['case'], bad, res.summary)
+    rec.extra['atheris_executions'] = rec.extra.get('atheris_executions', 0) + int(stats.get('execs', 0))
+    rec.extra['atheris_nontrivial_executions'] = rec.extra.get('atheris_nontrivial_executions', 0) + int(stats.get('nontrivial', 0))
+    shutil.rmtree(d, ignore_errors=True)
 
 
 def run_job(rec: core.Recorder, job: dict, seed: int) -> None:
+    if job['engine'] == 'atheris':
+        run_atheris(rec, job, seed)
+        return
     core.run_hypothesis(rec, 'ops', case(), check, max_examples=job['n'], seed=seed)
 
 
